@@ -56,6 +56,16 @@ pub fn std_types() -> Vec<TypeDeclaration> {
                 ("m2", vec![ext("a"), ext("b"), cns("k", "_Cont")]),
             ],
         ),
+        // methods with 0 / 6 / 12 integer parameters: the invoked object sits at position 2 / 8 / 14
+        // of the environment (in a register, spilled on x86-64, spilled on AArch64)
+        decl(
+            "Wide",
+            vec![
+                ("wa", vec![cns("k", "_Cont")]),
+                ("wb", (1..=6).map(|i| ext(&format!("p{i}"))).chain([cns("k", "_Cont")]).collect()),
+                ("wc", (1..=12).map(|i| ext(&format!("p{i}"))).chain([cns("k", "_Cont")]).collect()),
+            ],
+        ),
         decl("Quad", vec![("Q0", vec![]), ("Q1", vec![]), ("Q2", vec![ext("a")]), ("Q3", vec![])]),
         // a closure type whose method takes a closure of the same type (self application)
         decl("Rec", vec![("run", vec![cns("f", "Rec"), ext("x")])]),
